@@ -32,3 +32,5 @@ Definition x_seqres_remove {A} (sec_of : A -> nat) (present : bool) (old : list 
   if present then filter (fun r => x_seqres_remove_keep (sec_of r) sec) old else old.
 
 Definition x_result_linked_before_any_return : bool := true.
+
+Definition x_eof_filter_created_once_before_loop : bool := true.
